@@ -140,8 +140,19 @@ func c07History(c *h.Ctx, id string, r *rand.Rand) {
 	// tree): inserting and removing them must be invisible to the cache
 	withPit := r.Intn(2) == 0
 	var pend []table.PitEntry
+	ticks := r.Intn(2) == 0
 	for step := 0; step < nOps; step++ {
 		clock++
+		if ticks && !withPit && r.Intn(5) == 0 {
+			// the table's periodic maintenance call (the forwarding thread makes it every 100 ms or so);
+			// it must not change what the cache holds or answers
+			hist = append(hist, csOp{Op: "maintenance-tick"})
+			if pi := h.Guard(func() { cs.Update() }); pi != nil {
+				fail("C07:panic:update:"+pi.Frame+":"+pi.Class, "Update panicked: "+pi.Value, nil)
+				return
+			}
+			c.Count("maintenance_ticks", 1)
+		}
 		name := u.Pick(r)
 		if len(name) == 0 {
 			name = u.PickDepth(r, 1)
